@@ -553,7 +553,7 @@ def e2e_worker(args):
 def correspondence(res):
     from props import c02
     W = 14
-    n = 420 if res.tier == "quick" else 8000
+    n = 420 if res.tier == "quick" else 3360
     terms, infos = c02.parallel(res, op_worker, [(res.seed * 1000 + w, max(1, n // W)) for w in range(W)])
     codes = common.run_case_codes("C16", "ops", HEADER, terms, "c16_ops", chunk=60, ctype=OT)
     res.coverage["rule"] = ("(1) operator histories (3-9 real operations: fuzz, mutation of a generator node, replacement of a recorded argument, replacement outside, "
@@ -582,7 +582,7 @@ def correspondence(res):
         if len(res.violations) < 3:
             infos[i]["first_disagreement_at_operation"] = v - 10
             res.violation("a search operator treats a generator-defined field differently from the model (outcome or resulting fields)", infos[i])
-    n2 = 28 if res.tier == "quick" else 600
+    n2 = 28 if res.tier == "quick" else 168
     terms2, infos2 = c02.parallel(res, e2e_worker, [(res.seed * 1000 + 500 + w, max(1, n2 // W)) for w in range(W)])
     codes2 = common.run_case_codes("C16", "inlog", HEADER, terms2, "c16_inlog", chunk=60, ctype=LT)
     for i, v in enumerate(codes2):
